@@ -11,7 +11,15 @@ package main
 // and freed here.
 
 /*
+#include <inttypes.h>
+#include <stdbool.h>
 #include <stdlib.h>
+
+typedef struct {
+	bool hiddenFiles;
+	bool singleFiles;
+	int padStyle;
+} FileOption;
 */
 import "C"
 
@@ -139,4 +147,37 @@ func verifMutateFileSeq(id FileSeqId, fsid FrameSetId, dir, base, ext, pad, rng 
 	add("SetFrameSet", FileSequence_SetFrameSet(id, fsid))
 	add("String", verifStr(FileSequence_String(id)))
 	return out
+}
+
+// verifFindSequenceOnDisk calls the exported single-pattern lookup.
+func verifFindSequenceOnDisk(pattern string, style int, pad bool) (FileSeqId, string) {
+	cs := C.CString(pattern)
+	defer C.free(unsafe.Pointer(cs))
+	if pad {
+		id, e := FindSequenceOnDiskPad(cs, C.int(style))
+		return id, verifStr(e)
+	}
+	id, e := FindSequenceOnDisk(cs)
+	return id, verifStr(e)
+}
+
+// verifFindSequencesOnDisk calls the exported directory listing and returns the
+// handles it produced (the C array is freed here).
+func verifFindSequencesOnDisk(path string, hidden, single bool, style int) ([]FileSeqId, string) {
+	cs := C.CString(path)
+	defer C.free(unsafe.Pointer(cs))
+	var opts C.FileOption
+	opts.hiddenFiles = C.bool(hidden)
+	opts.singleFiles = C.bool(single)
+	opts.padStyle = C.int(style)
+	list, n, e := FindSequencesOnDisk(cs, opts)
+	var ids []FileSeqId
+	if list != nil {
+		size := unsafe.Sizeof(uint64(0))
+		for i := uint64(0); i < n; i++ {
+			ids = append(ids, FileSeqId(*(*uint64)(unsafe.Pointer(uintptr(unsafe.Pointer(list)) + uintptr(i)*size))))
+		}
+		C.free(unsafe.Pointer(list))
+	}
+	return ids, verifStr(e)
 }
